@@ -110,8 +110,9 @@ class CurveEvaluator(AbstractEvaluator):
         precision = datadict['precision']
 
         # Keyword arguments
-        start = kwargs.get('start', 0.0)
-        stop = kwargs.get('stop', 1.0)
+        # (the default range is the domain of the curve, which is [0, 1] for a clamped and normalized knot vector)
+        start = kwargs.get('start', knotvector[degree])
+        stop = kwargs.get('stop', knotvector[-(degree + 1)])
 
         # Algorithm A3.1
         knots = linalg.linspace(start, stop, sample_size, decimals=precision)
@@ -279,8 +280,9 @@ class SurfaceEvaluator(AbstractEvaluator):
         precision = datadict['precision']
 
         # Keyword arguments
-        start = kwargs.get('start', [0.0 for _ in range(pdimension)])
-        stop = kwargs.get('stop', [1.0 for _ in range(pdimension)])
+        # (the default range is the domain of the shape, which is [0, 1] for clamped and normalized knot vectors)
+        start = kwargs.get('start', [knotvector[idx][degree[idx]] for idx in range(pdimension)])
+        stop = kwargs.get('stop', [knotvector[idx][-(degree[idx] + 1)] for idx in range(pdimension)])
 
         # Algorithm A3.5
         spans = [[] for _ in range(pdimension)]
@@ -480,8 +482,9 @@ class VolumeEvaluator(AbstractEvaluator):
         precision = datadict['precision']
 
         # Keyword arguments
-        start = kwargs.get('start', [0.0 for _ in range(pdimension)])
-        stop = kwargs.get('stop', [1.0 for _ in range(pdimension)])
+        # (the default range is the domain of the shape, which is [0, 1] for clamped and normalized knot vectors)
+        start = kwargs.get('start', [knotvector[idx][degree[idx]] for idx in range(pdimension)])
+        stop = kwargs.get('stop', [knotvector[idx][-(degree[idx] + 1)] for idx in range(pdimension)])
 
         # Algorithm A3.5 (modified)
         spans = [[] for _ in range(pdimension)]
